@@ -15,13 +15,30 @@ EXTENDS NotifyMC, Json
 
 CONSTANTS MinSteps, MaxSteps,
           GenOps,  \* step vocabulary the generated scripts may use
+          Script, \* <<>>, or the operations (names only) the environment performs, in this order: a directed scenario
+                  \* family - TLC still chooses the arguments and every interleaving of the SDK's own steps
           Bias   \* simulation only: prefer letting time pass while a timer is armed (RandomElement)
 VARIABLES hist, nh, stopped
 gvars == <<vars, hist, nh, stopped>>
 
+\* directed scenario families of the cache-race dimension (Notify_lead_cold*.cfg): the fill races the notification while
+\* the cache is EMPTY - at the first call ever, or EMPTY AGAIN after a notification found it filled and emptied it, or
+\* after everything in it expired
+ScriptNone == <<>>
+ScriptFirst == <<"hold", "list", "change", "tick", "tick", "release", "list">>   \* the first call ever
+ScriptReadFirst == <<"subscribe", "hold", "list", "updated", "release", "list">>
+ScriptRefill == <<"list", "change", "tick", "tick", "hold", "list", "change", "tick", "tick", "release", "list">>
+ScriptExpired == <<"list", "expire", "hold", "list", "change", "tick", "tick", "release", "list">>
+ScriptReadRefill == <<"subscribe", "list", "updated", "hold", "list", "updated", "release", "list">>
+ScriptReadExpired == <<"subscribe", "list", "expire", "hold", "list", "updated", "release", "list">>
+
 Topics == Notifs \cup Uris
-Proj == [nh |-> nh, lsub |-> lsub, rsub |-> rsub, ref |-> [n \in Notifs |-> ref[n] # "nil"], now |-> now]
-H(op, a1, a2) == op \in GenOps /\ hist' = Append(hist, [op |-> op, a1 |-> a1, a2 |-> a2, pre |-> Proj])
+Proj == [nh |-> nh, lsub |-> lsub, rsub |-> rsub, ref |-> [n \in Notifs |-> ref[n] # "nil"], now |-> now,
+         \* what Server.capabilities() answers right now, and the sizes of the feature sets
+         adv |-> [n \in Notifs |-> Adv(n, size)], size |-> size]
+H(op, a1, a2) == /\ op \in GenOps
+                 /\ Script = <<>> \/ (Len(hist) < Len(Script) /\ Script[Len(hist) + 1] = op)
+                 /\ hist' = Append(hist, [op |-> op, a1 |-> a1, a2 |-> a2, pre |-> Proj])
 Go == ~stopped /\ Len(hist) < MaxSteps
 Same == UNCHANGED <<hist, nh, stopped>>
 \* a listen request in the step vocabulary: the URIs in order, then those the SubscribeHandler rejects: "u1+u2/u2"
@@ -42,15 +59,16 @@ GenSdk ==
 
 TimeEnv ==
   \/ Tick /\ H("tick", "", "")
-  \/ \E k \in Kinds : TickRace(k) /\ H("tchange", k, "")
+  \/ \E k \in Kinds, d \in Dirs : TickRace(k, d) /\ H("tchange", k, d)
 OtherEnv ==
-  \/ \E k \in Kinds : Change(k) /\ H("change", k, "")
+  \/ \E k \in Kinds, d \in Dirs : Change(k, d) /\ H("change", k, d)
   \/ \E u \in Uris : Updated(u) /\ H("updated", u, "")
   \/ \E s \in Sessions : (Connect(s) /\ H("connect", s, "")) \/ (Close(s) /\ H("close", s, ""))
   \/ \E s \in Sessions, u \in Uris : (Subscribe(s, u) /\ H("subscribe", s, u)) \/ (Unsubscribe(s, u) /\ H("unsubscribe", s, u))
   \/ \E s \in Listeners, q \in UriSeqs, rej \in SUBSET Uris : Listen(s, q, rej) /\ H("listen", s, ListenArg(q, rej))
   \/ \E s \in Listeners : Unlisten(s) /\ H("unlisten", s, "")
   \/ \E s \in Sessions, c \in Slots, i \in Items : ListStart(s, c, i) /\ H("list", s, i)
+  \/ \E s \in Sessions : Expire(s) /\ H("expire", s, "")
   \/ \E g \in GateNames, s \in Sessions : (Hold(g, s) /\ Cardinality(gates) < 2 /\ H("hold", g, s)) \/ (Release(g, s) /\ H("release", g, s))
 TickEn == EnvOK /\ now < MaxTime /\ \E n \in Notifs : TimerArmed(n)
 GenEnv ==
@@ -62,12 +80,12 @@ Stop == /\ ~stopped /\ EnvOK /\ Len(hist) >= MinSteps
         /\ stopped' = TRUE /\ UNCHANGED <<vars, hist, nh>>
 DrainRelease == /\ stopped /\ EnvOK /\ gates # {}
                 /\ gates' = {}
-                /\ UNCHANGED <<now, ver, ref, refDue, orph, cbs, sess, lsub, rsub, usub, pun, chan, nq, hnd, cache, cgen, call, handled, race, budget, ent, got, bad, lst>>
+                /\ UNCHANGED <<size, told, now, ver, ref, refDue, orph, cbs, sess, lsub, rsub, usub, pun, chan, nq, hnd, cache, cgen, call, handled, race, budget, ent, got, bad, lst>>
                 /\ Same
 DrainTick == /\ stopped /\ EnvOK /\ gates = {} /\ now < MaxTime + D
              /\ \E n \in Notifs : TimerArmed(n)
              /\ now' = now + 1
-             /\ UNCHANGED <<ver, ref, refDue, orph, cbs, sess, lsub, rsub, usub, pun, chan, nq, hnd, cache, cgen, call, handled, gates, race, budget, ent, got, bad, lst>>
+             /\ UNCHANGED <<size, told, ver, ref, refDue, orph, cbs, sess, lsub, rsub, usub, pun, chan, nq, hnd, cache, cgen, call, handled, gates, race, budget, ent, got, bad, lst>>
              /\ Same
 
 GenNext == GenSdk \/ GenEnv \/ Stop \/ DrainRelease \/ DrainTick
